@@ -28,7 +28,8 @@ Variable expand_text : list (string * string) -> string -> string.
 Variable rf : fmt -> string -> string.
 Hypothesis parse_render : forall f d, rep_top d = true -> parse f (render f d) = Some (shape rf f d).
 Hypothesis expand_render : forall f env d,
-  rep_top d = true -> parse f (expand_text env (render f d)) = Some (shape rf f (expand_doc env d)).
+  rep_top d = true -> rep_top (expand_doc env d) = true ->
+  parse f (expand_text env (render f d)) = Some (shape rf f (expand_doc env d)).
 
 (* Format independence: for every type of the family (14 scalar kinds, pointers, slices, maps,
    nested and embedded structs incl. optional and pointer ones, optional / optional=dep /
@@ -67,14 +68,15 @@ Theorem env_only_when_requested : forall T f env d,
   load_file_text parse expand_text T f false env (render f d) = load_text parse T f (render f d).
 Proof. exact (env_not_requested_lemma parse render expand_text). Qed.
 
-(* ... with it, the result is that of the document with ${NAME} / $NAME expanded in its strings,
-   and the three formats still agree *)
-Theorem env_expanded_when_requested : forall T f env d, rep_top d = true ->
+(* ... with it, the result is that of the document with ${NAME} / $NAME expanded in its strings
+   AND IN ITS KEYS (os.ExpandEnv works on the text of the file; the expanded document must still
+   have distinct keys), and the three formats still agree *)
+Theorem env_expanded_when_requested : forall T f env d, rep_top d = true -> rep_top (expand_doc env d) = true ->
   load_file_text parse expand_text T f true env (render f d) = load_doc rf T f (expand_doc env d).
 Proof. exact (env_requested_lemma parse render expand_text rf expand_render). Qed.
 
 Theorem env_format_independent : forall T env d,
-  fam_fields T = true -> rep_top d = true -> leaves_ok rf (expand_doc env d) = true ->
+  fam_fields T = true -> rep_top d = true -> rep_top (expand_doc env d) = true -> leaves_ok rf (expand_doc env d) = true ->
   float_positions_ok T (expand_doc env d) = true ->
   rsim gsim (load_file_text parse expand_text T FYaml true env (render FYaml d))
             (load_file_text parse expand_text T FJson true env (render FJson d)) /\
